@@ -262,5 +262,34 @@ func runC11(r *core.Run) {
 			}
 		}
 	}
+	// The store is wiped and bootstrapped again — by a fresh process, or by the same long-lived one
+	// that performed a rotation before and whose storage wipeout may have lost its acknowledgement:
+	// it is a bootstrap of an empty store all the same.
+	if r.Chance(35, "wipe-and-rebootstrap?") {
+		w := a.Clone()
+		w.Now = a.Now.Add(24 * time.Hour)
+		w.Persist = r.Chance(70, "rebootstrap-long-lived")
+		if err, _ := w.Rotate(RotArgs{SerialOverride: 700}); err != nil {
+			r.HarnessErr = fmt.Sprintf("fault-free rotation before the wipeout failed: %v", err)
+			return
+		}
+		lostAck := r.Bool("wipeout-lost-ack")
+		w.Disk.WipeoutLostAck = lostAck
+		errCA, _ := w.Wipeout("ca", Flags{})
+		w.Disk.WipeoutLostAck = false
+		errK, _ := w.Wipeout("keys", Flags{})
+		if len(w.Disk.Names(bucket)) != 0 || errK != nil {
+			r.HarnessErr = fmt.Sprintf("wipeout left objects %v behind (ca: %v, keys: %v)", w.Disk.Names(bucket), errCA, errK)
+			return
+		}
+		pre := w.Disk.Snapshot()
+		start := len(w.Disk.Log)
+		w.Now = w.Now.Add(24 * time.Hour)
+		errB, _ := w.Bootstrap(BootArgs{SignCN: cnPool[r.Intn(len(cnPool), "reboot-cn")]})
+		writes := append([]seams.WriteRec(nil), w.Disk.Log[start:]...)
+		r.Eventf("bootstrap after wipeout (long-lived=%v, lost-ack=%v, wipeout ca -> %s) -> %s, writes: %s", w.Persist, lostAck, errClass(errCA, false), errClass(errB, false), writeNames(writes))
+		checkPrefixes(r, pre, writes, fmt.Sprintf("bootstrap-after-wipeout/long-lived=%v/lost-ack=%v", w.Persist, lostAck), hist)
+		r.Probe("bootstrap-after-wipeout")
+	}
 	r.Sample = map[string]any{"config": cfg.String(), "history": hist, "writes": sample}
 }
